@@ -105,7 +105,19 @@ var ringRows = []ringRow{
 	{name: "DivRoundByLastModulusMany/1", arity: 1, drop: 1, call: func(r *ring.Ring, x *ringAux, a, b, c ring.Poly) { r.DivRoundByLastModulusMany(1, a, x.buff, c) }},
 	{name: "DivRoundByLastModulusManyNTT", arity: 1, drop: 2, call: func(r *ring.Ring, x *ringAux, a, b, c ring.Poly) { r.DivRoundByLastModulusManyNTT(2, a, x.buff, c) }},
 	{name: "DivRoundByLastModulusManyNTT/1", arity: 1, drop: 1, call: func(r *ring.Ring, x *ringAux, a, b, c ring.Poly) { r.DivRoundByLastModulusManyNTT(1, a, x.buff, c) }},
+	// (appended rows: the case ids rowsNN of the rows above stay what they were)
+	{name: "DivFloorByLastModulusManyNTT/1", arity: 1, drop: 1, call: func(r *ring.Ring, x *ringAux, a, b, c ring.Poly) { r.DivFloorByLastModulusManyNTT(1, a, x.buff, c) }},
+	{name: "DivFloorByLastModulusMany/0", arity: 1, call: func(r *ring.Ring, x *ringAux, a, b, c ring.Poly) { r.DivFloorByLastModulusMany(0, a, x.buff, c) }},
+	{name: "DivFloorByLastModulusManyNTT/0", arity: 1, call: func(r *ring.Ring, x *ringAux, a, b, c ring.Poly) { r.DivFloorByLastModulusManyNTT(0, a, x.buff, c) }},
+	{name: "DivRoundByLastModulusMany/0", arity: 1, call: func(r *ring.Ring, x *ringAux, a, b, c ring.Poly) { r.DivRoundByLastModulusMany(0, a, x.buff, c) }},
+	{name: "DivRoundByLastModulusManyNTT/0", arity: 1, call: func(r *ring.Ring, x *ringAux, a, b, c ring.Poly) { r.DivRoundByLastModulusManyNTT(0, a, x.buff, c) }},
 }
+
+// rows whose auxiliary arguments (scalars, vectors, shifts) are also run at their boundary values
+var ringAuxRows = map[string]bool{"AddScalar": true, "AddScalarBigint": true, "SubScalar": true, "SubScalarBigint": true, "MulScalar": true,
+	"MulScalarThenAdd": true, "MulScalarThenSub": true, "MulScalarBigint": true, "MulScalarBigintThenAdd": true, "MulRNSScalarMontgomery": true,
+	"AddDoubleRNSScalar": true, "SubDoubleRNSScalar": true, "MulDoubleRNSScalar": true, "MulDoubleRNSScalarThenAdd": true, "Shift": true,
+	"MultByMonomial": true, "MulByVectorMontgomery": true, "MulByVectorMontgomeryThenAddLazy": true, "EvalPolyScalar": true}
 
 func randPoly(r *ring.Ring, rnd *eng.Rand) ring.Poly {
 	p := r.NewPoly()
@@ -137,15 +149,34 @@ func runRingOps(c *eng.Ctx, cfg pcfg, lo, hi int) {
 	t := &T{c: c, tag: cfg.tag()}
 	rnd := c.Rand()
 	c.Sample(map[string]any{"ring": cfg, "rows": fmt.Sprintf("%d..%d of %d", lo, hi, len(ringRows)), "patterns": "fresh,p3=p1,p3=p2,p1=p2,p1=p2=p3"})
-	for _, level := range []int{rFull.MaxLevel(), rFull.MaxLevel() - 1} {
+	type lvlAux struct {
+		level int
+		aux   string
+	}
+	// the two highest levels (as before), then the single-modulus level and the boundary values of the
+	// auxiliary arguments (zero / maximal, unreduced scalars, shifts by 0, N-1 and beyond 2N)
+	plan := []lvlAux{{rFull.MaxLevel(), ""}, {rFull.MaxLevel() - 1, ""}}
+	if rFull.MaxLevel()-1 > 0 {
+		plan = append(plan, lvlAux{0, ""})
+	}
+	plan = append(plan, lvlAux{rFull.MaxLevel(), "zero"}, lvlAux{rFull.MaxLevel(), "max"}, lvlAux{0, "max"})
+	for _, la := range plan {
+		level, auxKind := la.level, la.aux
 		r := rFull.AtLevel(level)
 		for ri := lo; ri < hi && ri < len(ringRows); ri++ {
 			row := ringRows[ri]
 			if row.drop > level {
 				continue
 			}
+			if auxKind != "" && !ringAuxRows[row.name] {
+				continue
+			}
 			api := "ring.Ring." + apiOf(row.name)
 			variant := fmt.Sprintf("lvl%d", level)
+			if auxKind != "" {
+				variant += "/x:" + auxKind
+				c.Count("boundary_operand_rows", 1)
+			}
 			// operands at the level of the ring
 			A, B, C := randPoly(r, rnd), randPoly(r, rnd), randPoly(r, rnd)
 			gal := uint64(5)
@@ -158,6 +189,22 @@ func runRingOps(c *eng.Ctx, cfg pcfg, lo, hi int) {
 				x.vec = append([]uint64(nil), A.Coeffs[0]...)
 				for i := range x.vec {
 					x.vec[i] %= minMod(r)
+				}
+				switch auxKind {
+				case "zero":
+					x.u, x.big, x.k = 0, new(big.Int), 0
+					x.s0, x.s1, x.sm = r.NewRNSScalarFromUInt64(0), r.NewRNSScalarFromUInt64(0), r.NewRNSScalarFromUInt64(0)
+					for i := range x.vec {
+						x.vec[i] = 0
+					}
+				case "max":
+					x.u, x.big, x.k = ^uint64(0), new(big.Int).Lsh(big.NewInt(0x7654321), 200), -(2*r.N() + 3)
+					x.s0, x.s1 = r.NewRNSScalarFromBigint(big.NewInt(-1)), r.NewRNSScalarFromBigint(big.NewInt(-2))
+					x.sm = r.NewRNSScalarFromBigint(big.NewInt(-1))
+					r.MFormRNSScalar(x.sm, x.sm)
+					for i := range x.vec {
+						x.vec[i] = minMod(r) - 1
+					}
 				}
 				p := newPoisoner(rnd, 1)
 				p.poly(x.buff)
@@ -287,4 +334,50 @@ func minMod(r *ring.Ring) uint64 {
 		}
 	}
 	return m
+}
+
+// runRingMapDim: the free function MapSmallDimensionToLargerDimensionNTT (ring/operations.go).
+func runRingMapDim(c *eng.Ctx, cfg pcfg) {
+	rt := ring.Standard
+	if cfg.Ring == "ci" {
+		rt = ring.ConjugateInvariant
+	}
+	logS := cfg.LogN - 2
+	if logS < 3 {
+		logS = cfg.LogN - 1
+	}
+	rL, err1 := ring.NewRingFromType(1<<cfg.LogN, cfg.Q, rt)
+	if err1 != nil {
+		c.Inconclusive("ring rejected: " + err1.Error())
+		return
+	}
+	rS, err2 := ring.NewRingFromType(1<<logS, cfg.Q, rt)
+	if err2 != nil {
+		// no smaller ring over these moduli: nothing to map from
+		c.Count("rows_not_applicable", 1)
+		return
+	}
+	t := &T{c: c, tag: cfg.tag()}
+	rnd := c.Rand()
+	c.Sample(map[string]any{"ring": cfg, "area": "ring.MapSmallDimensionToLargerDimensionNTT", "patterns": "fresh,hist-out"})
+	for _, v := range []struct {
+		name   string
+		ls, ll int
+	}{{"top", rL.MaxLevel(), rL.MaxLevel()}, {"small-lower", 0, rL.MaxLevel()}, {"large-lower", rL.MaxLevel(), 0}} {
+		v := v
+		S := randPoly(rS.AtLevel(v.ls), rnd)
+		t.runPatterns("ring.MapSmallDimensionToLargerDimensionNTT", v.name, "", []string{"hist-out"}, func(pat string) ([]named, func() (string, error)) {
+			in := cpPoly(S)
+			out := rL.AtLevel(v.ll).NewPoly()
+			if pat == "hist-out" {
+				out = randPoly(rL.AtLevel(v.ll), rnd)
+			}
+			lo := min(v.ls, v.ll)
+			return []named{{"polSmall", &in}}, func() (string, error) {
+				ring.MapSmallDimensionToLargerDimensionNTT(in, out)
+				// (only the rows of the common levels are outputs)
+				return cvalString(canonPoly(rL, ring.Poly{Coeffs: out.Coeffs[:lo+1]})), nil
+			}
+		})
+	}
 }
